@@ -114,7 +114,7 @@ const verifAlpha39 = "0123456789ABCDEFGHIJKLMNOPQRSTUVWXYZ-. $/+%"
 const verifAlphaCodabar = "0123456789-$:/.+"
 
 // templates: a valid content per writer with room for free characters
-var verifTemplate = [10]string{"590123412345", "9638507", "03600029145", "0123456", "A1-Z. 9", "a~Code 93", "Ab1x23456z", "12345678", "A1234-5B", "a1-Z. 9~"}
+var verifTemplate = [11]string{"590123412345", "9638507", "03600029145", "0123456", "A1-Z. 9", "a~Code 93", "Ab1x23456z", "12345678", "A1234-5B", "a1-Z. 9~", "\nAB\x02CD12"}
 
 // verifFreeChar: a free character of writer wi's alphabet at position pos.
 func verifFreeChar(wi, pos, n int) byte {
@@ -150,6 +150,9 @@ func verifFreeChar(wi, pos, n int) byte {
 func verifFreeContent(wi, i, j int) string {
 	t := []byte(verifTemplate[wi])
 	n := len(t)
+	if i < 0 {
+		return string(t)
+	}
 	t[i] = verifFreeChar(wi, i, n)
 	if j >= 0 {
 		t[j] = verifFreeChar(wi, j, n)
@@ -162,11 +165,16 @@ func verifPair(wi int) (gozxing.Writer, gozxing.BarcodeFormat, gozxing.Reader, i
 		w, f := verifWriter(4)
 		return w, f, NewCode39ReaderWithFlags(false, true), 4
 	}
+	if wi == 10 { // Code 128 with control characters: code set A is active around the free character
+		w, f := verifWriter(6)
+		return w, f, verifReader(6), 6
+	}
 	w, f := verifWriter(wi)
 	return w, f, verifReader(wi), wi
 }
 
-// VerifC03Free: the template content of writer wi (9 = Code 39 in full-ASCII mode) with the
+// VerifC03Free: the template content of writer wi (9 = Code 39 in full-ASCII mode, 10 = Code 128 in
+// code set A context) with the
 // characters at positions i and j (j < 0: only i) free over the symbology's alphabet; written with
 // the given margin (< 0: default) at the requested size (0: natural), read back through the image path.
 func VerifC03Free(wi, i, j, margin, width, height int) {
